@@ -263,6 +263,31 @@ def copy_args(c):
     return None
 
 
+def range_copy_args(fn, c):
+    """(container node, src, length node or None) when c copies a raw pointer range [p, p + n) into a
+    container that allocates for it: v.assign(p, q), v.insert(pos, p, q), vector(p, q).  Else None."""
+    a = c.get("args", [])
+    rng = None
+    if c.get("k") == "call" and "obj" in c:
+        nm = (c.get("callee") or {}).get("nm")
+        if nm == "assign" and len(a) == 2:
+            rng = (a[0], a[1])
+        elif nm == "insert" and len(a) == 3:
+            rng = (a[1], a[2])
+        dst = c.get("obj")
+    elif c.get("k") == "construct" and len(a) in (2, 3) and (c.get("rec") or "").startswith("std::") and \
+            any(x in (c.get("rec") or "") for x in ("vector", "basic_string", "deque")):
+        rng = (a[0], a[1])
+        dst = c
+    if rng is None:
+        return None
+    t0 = strip(rng[0]).get("t") or strip_all_casts(rng[0]).get("t") or {}
+    t1 = strip(rng[1]).get("t") or strip_all_casts(rng[1]).get("t") or {}
+    if t0.get("k") != "ptr" or t1.get("k") != "ptr":
+        return None
+    return dst, rng[0], range_length(fn, rng[0], rng[1])
+
+
 class Function:
     """One function definition with lazily built indexes."""
 
@@ -540,6 +565,7 @@ class FactBase:
                     self.statics[k] = s
             for raw in u["functions"]:
                 fn = Function(raw)
+                fn.fb = self
                 fn.unit = u["unit"]
                 k = fn.key
                 old = self.functions.get(k)
@@ -829,6 +855,55 @@ def writes_of(fn):
     for i in fn.raw.get("inits", []) or []:
         if i.get("field"):
             out.append((i["field"], "ctor-init", i.get("e")))
+    return out
+
+
+def range_length(fn, first, last):
+    """Length node n when the iterator pair (first, last) is (p, p + n) for the same pointer
+    expression p (after expanding single-definition locals); else None."""
+    want = xcanon(fn, first)
+    for b in (strip_all_casts(last), strip_all_casts(expand(fn, last, 1)), strip_all_casts(expand(fn, last))):
+        if b.get("k") == "bin" and b.get("op") == "+":
+            for base, n in ((b["l"], b["r"]), (b["r"], b["l"])):
+                if xcanon(fn, base) == want and ((strip(base).get("t") or {}).get("k") == "ptr" or (strip_all_casts(base).get("t") or {}).get("k") == "ptr"):
+                    return n
+    return None
+
+
+def vector_sizing(fn, field=None):
+    """Sizing operations on vector members in fn: [(field, kind, call node, length node)] with kind
+    'set' (size becomes length: resize(n), assign(p, p+n), assign(n, v)) or 'grow' (size increases
+    by length: insert(end(), p, p+n), resize(size() + n), push_back/emplace_back -> length None = 1)."""
+    out = []
+    for n in fn.nodes():
+        if n.get("k") != "call" or "obj" not in n:
+            continue
+        o = strip_all_casts(n["obj"])
+        fld = o.get("field") if o.get("k") == "member" else None
+        if fld is None or (field is not None and fld != field):
+            continue
+        nm = (n.get("callee") or {}).get("nm")
+        args = n.get("args", [])
+        if nm == "resize" and args:
+            out.append((fld, "set", n, args[0]))
+        elif nm == "assign" and len(args) == 2:
+            ln = range_length(fn, args[0], args[1])
+            if ln is not None:
+                out.append((fld, "set", n, ln))
+            elif (strip(args[0]).get("t") or {}).get("k") == "int":
+                out.append((fld, "set", n, args[0]))
+            else:
+                out.append((fld, "unknown", n, None))
+        elif nm == "insert" and len(args) == 3:
+            pos = strip_all_casts(args[0])
+            while pos.get("k") == "construct" and len(pos.get("args", [])) == 1 and "iterator" in (pos.get("rec") or ""):
+                pos = strip_all_casts(pos["args"][0])  # iterator -> const_iterator conversion
+            at_end = pos.get("k") == "call" and (pos.get("callee") or {}).get("nm") in ("end", "cend") and \
+                strip_all_casts(pos.get("obj", {})).get("field") == fld
+            ln = range_length(fn, args[1], args[2])
+            out.append((fld, "grow" if at_end and ln is not None else "unknown", n, ln))
+        elif nm in ("push_back", "emplace_back"):
+            out.append((fld, "grow", n, None))
     return out
 
 
